@@ -25,9 +25,15 @@ def seq_points(seq):
     return [ord(c) for c in str(seq)]
 
 
+_COMP_PAIRS = [(65, 84), (67, 71), (66, 86), (68, 72), (75, 77), (82, 89)]   # A-T C-G B-V D-H K-M R-Y
+
+
 def comp(o):
-    """Complement of a code point (A<->T, C<->G, identity elsewhere), branch free."""
-    return o + (o == 65) * 19 - (o == 84) * 19 + (o == 67) * 4 - (o == 71) * 4
+    """Complement of an upper-case IUPAC code point, branch free (oracle side)."""
+    r = o
+    for a, b in _COMP_PAIRS:
+        r = r + (o == a) * (b - a) + (o == b) * (a - b)
+    return r + (o == 85) * (65 - 85)     # U -> A
 
 
 class Recorder:
